@@ -28,7 +28,7 @@ Theorem drf_noninterference :
 Proof.
   intros loc val P loc_eqb Hspec vnone memo next F Inv Hfp Hmc Hc sched s0 ps0 Hm Hi i p r Hp Hf.
   apply (drf_noninterference_l loc val P loc_eqb Hspec vnone memo next F Inv Hfp Hmc Hc sched
-           (s0, ps0)); [split; assumption|exact Hp|exact Hf].
+           (s0, ps0) (conj Hm Hi) i p r Hp Hf).
 Qed.
 Print Assumptions drf_noninterference.
 
